@@ -95,6 +95,8 @@ def h05_redis(S, via="enqueue"):
     now = S.int("consume_at_us", Y2000, Y2050)
     enq = S.int("enqueue_at_us", Y2000, Y2050)
     S.assume(enq <= now)
+    # the machine's UTC offset (quarter hours): due times are local wall-clock datetimes, Redis scores and the consumer's bound are unix seconds
+    zone = S.int("utc_offset_quarter_hours", -48, 56) * (900 * SEC)
     clock = PinnedClock(enq)
     out = {}
     S.tag("via", via)
@@ -140,7 +142,8 @@ def h05_redis(S, via="enqueue"):
         from repid.connections.redis.utils import mnc
         return mnc(key)
 
-    run_async(main, clock=clock)
+    with vtime.local_zone(zone):
+        run_async(main, clock=clock)
     S.check("stored-in-delayed-category", place_names(out["places_before"], "d1") == ["delayed"],
             info=str(place_names(out["places_before"], "d1")))
     if out["got"] is not None:
